@@ -93,7 +93,7 @@ fn run_format(cfg: &Cfg, index: u64, stats: &mut Stats) {
         | Ok(Ok(o)) => o,
     };
     stats.count("formatted");
-    if index == 3 {
+    if stats.samples.is_empty() {
         stats.sample(json!({"case": case.describe(), "input_excerpt": input.chars().take(300).collect::<String>(), "output_excerpt": output.chars().take(300).collect::<String>()}));
     }
     // (2) output parses
